@@ -16,8 +16,8 @@
    thread, the mutex does not starve a contender: a thread that finds the mutex free at some moment will get it at some
    later moment even if other threads take it in between), and a signalled waiter is eventually scheduled.
    This is stronger than weak fairness ([weakly_fair]: only a thread whose obligatory transition stays enabled for ever
-   must step) - which is not enough for a mutex, see Stw_live_proofs.weak_fairness_is_not_enough - and it is implied by
-   strong fairness of every thread. *)
+   must step) - which is not enough for a mutex: two clients that take the mutex alternately leave the worker enabled only
+   at isolated moments, so weak fairness never obliges it to move - and it is implied by strong fairness of every thread. *)
 Require Import List Arith.
 Require Import IW.CC.Lts.
 
